@@ -4,6 +4,21 @@ use rvmon::{run::*, universe::*};
 fn main() {
     rvmon::run::install_panic_hook();
     let path = std::env::args().nth(1).unwrap();
+    if path == "corpus" {
+        for e in rvmon::corpus::all() {
+            let u = Rc::new(e.u.clone());
+            for opts in [SolveOpts::default()] {
+                let (sess, out) = solve_once(&u, &e.p, &opts);
+                let _ = &sess;
+                match &out {
+                    Outcome::Ok(s) => println!("{}: OK {:?}", e.name, s.iter().map(|&x| u.solv_label(x)).collect::<Vec<_>>()),
+                    Outcome::Panic(p) => println!("{}: PANIC {}", e.name, p.signature()),
+                    o => println!("{}: {}", e.name, o.tag()),
+                }
+            }
+        }
+        return;
+    }
     let v: serde_json::Value = serde_json::from_str(&std::fs::read_to_string(path).unwrap()).unwrap();
     let c = v.get("case").unwrap();
     let u: Universe = serde_json::from_value(c["u"].clone()).unwrap();
